@@ -72,28 +72,31 @@ Record st := mk {
   tasks : list task; nextg : nat;
   sched : list (list nat);             (* order in which the task set is iterated, one entry per tick *)
   ext : list xact;
+  mid : list (option (option Z));     (* per generate_events fired by tick(): Some c = a second thread's complete
+                                          stop(c) lands between tick()'s `if self._running` and that fire *)
   trace : list tr;
   pend : option (bool * option Z);     (* a pre-empted stopping second thread (true: before its fire(stopped),
                                           false: after it) and its code: the rest of its stop(code) runs once
                                           run() has returned *)
   bad : bool }.                        (* depth fuel exhausted / pop from an empty heap *)
 
-Definition set_running v s := mk v (executing s) (xcode s) (fifo s) (heap s) (batch s) (tasks s) (nextg s) (sched s) (ext s) (trace s) (pend s) (bad s).
-Definition set_executing v s := mk (running s) v (xcode s) (fifo s) (heap s) (batch s) (tasks s) (nextg s) (sched s) (ext s) (trace s) (pend s) (bad s).
-Definition set_xcode v s := mk (running s) (executing s) v (fifo s) (heap s) (batch s) (tasks s) (nextg s) (sched s) (ext s) (trace s) (pend s) (bad s).
-Definition set_fifo v s := mk (running s) (executing s) (xcode s) v (heap s) (batch s) (tasks s) (nextg s) (sched s) (ext s) (trace s) (pend s) (bad s).
-Definition set_heap v s := mk (running s) (executing s) (xcode s) (fifo s) v (batch s) (tasks s) (nextg s) (sched s) (ext s) (trace s) (pend s) (bad s).
-Definition set_batch v s := mk (running s) (executing s) (xcode s) (fifo s) (heap s) v (tasks s) (nextg s) (sched s) (ext s) (trace s) (pend s) (bad s).
-Definition set_tasks v s := mk (running s) (executing s) (xcode s) (fifo s) (heap s) (batch s) v (nextg s) (sched s) (ext s) (trace s) (pend s) (bad s).
-Definition set_nextg v s := mk (running s) (executing s) (xcode s) (fifo s) (heap s) (batch s) (tasks s) v (sched s) (ext s) (trace s) (pend s) (bad s).
-Definition set_sched v s := mk (running s) (executing s) (xcode s) (fifo s) (heap s) (batch s) (tasks s) (nextg s) v (ext s) (trace s) (pend s) (bad s).
-Definition set_ext v s := mk (running s) (executing s) (xcode s) (fifo s) (heap s) (batch s) (tasks s) (nextg s) (sched s) v (trace s) (pend s) (bad s).
-Definition set_trace v s := mk (running s) (executing s) (xcode s) (fifo s) (heap s) (batch s) (tasks s) (nextg s) (sched s) (ext s) v (pend s) (bad s).
-Definition set_pend v s := mk (running s) (executing s) (xcode s) (fifo s) (heap s) (batch s) (tasks s) (nextg s) (sched s) (ext s) (trace s) v (bad s).
-Definition set_bad s := mk (running s) (executing s) (xcode s) (fifo s) (heap s) (batch s) (tasks s) (nextg s) (sched s) (ext s) (trace s) (pend s) true.
+Definition set_running v s := mk v (executing s) (xcode s) (fifo s) (heap s) (batch s) (tasks s) (nextg s) (sched s) (ext s) (mid s) (trace s) (pend s) (bad s).
+Definition set_executing v s := mk (running s) v (xcode s) (fifo s) (heap s) (batch s) (tasks s) (nextg s) (sched s) (ext s) (mid s) (trace s) (pend s) (bad s).
+Definition set_xcode v s := mk (running s) (executing s) v (fifo s) (heap s) (batch s) (tasks s) (nextg s) (sched s) (ext s) (mid s) (trace s) (pend s) (bad s).
+Definition set_fifo v s := mk (running s) (executing s) (xcode s) v (heap s) (batch s) (tasks s) (nextg s) (sched s) (ext s) (mid s) (trace s) (pend s) (bad s).
+Definition set_heap v s := mk (running s) (executing s) (xcode s) (fifo s) v (batch s) (tasks s) (nextg s) (sched s) (ext s) (mid s) (trace s) (pend s) (bad s).
+Definition set_batch v s := mk (running s) (executing s) (xcode s) (fifo s) (heap s) v (tasks s) (nextg s) (sched s) (ext s) (mid s) (trace s) (pend s) (bad s).
+Definition set_tasks v s := mk (running s) (executing s) (xcode s) (fifo s) (heap s) (batch s) v (nextg s) (sched s) (ext s) (mid s) (trace s) (pend s) (bad s).
+Definition set_nextg v s := mk (running s) (executing s) (xcode s) (fifo s) (heap s) (batch s) (tasks s) v (sched s) (ext s) (mid s) (trace s) (pend s) (bad s).
+Definition set_sched v s := mk (running s) (executing s) (xcode s) (fifo s) (heap s) (batch s) (tasks s) (nextg s) v (ext s) (mid s) (trace s) (pend s) (bad s).
+Definition set_ext v s := mk (running s) (executing s) (xcode s) (fifo s) (heap s) (batch s) (tasks s) (nextg s) (sched s) v (mid s) (trace s) (pend s) (bad s).
+Definition set_mid v s := mk (running s) (executing s) (xcode s) (fifo s) (heap s) (batch s) (tasks s) (nextg s) (sched s) (ext s) v (trace s) (pend s) (bad s).
+Definition set_trace v s := mk (running s) (executing s) (xcode s) (fifo s) (heap s) (batch s) (tasks s) (nextg s) (sched s) (ext s) (mid s) v (pend s) (bad s).
+Definition set_pend v s := mk (running s) (executing s) (xcode s) (fifo s) (heap s) (batch s) (tasks s) (nextg s) (sched s) (ext s) (mid s) (trace s) v (bad s).
+Definition set_bad s := mk (running s) (executing s) (xcode s) (fifo s) (heap s) (batch s) (tasks s) (nextg s) (sched s) (ext s) (mid s) (trace s) (pend s) true.
 
 Definition init (sc : list (list nat)) (xs : list xact) : st :=
-  mk false false None [] [] 0 [] 0 sc xs [] None false.
+  mk false false None [] [] 0 [] 0 sc xs [] [] None false.
 
 Definition qlen (s : st) : nat := length (fifo s) + length (heap s).     (* len(self._queue) *)
 Definition logt (x : tr) (s : st) : st := set_trace (trace s ++ [x]) s.
@@ -126,6 +129,9 @@ Section Loop.
 (* legacy_order = true: stop() as `_running = False; fire(stopped); _exit_code = code` (the code recorded AFTER
    the wake-up of the loop) -- only used to refute that order; the code has legacy_order = false *)
 Variable legacy_order : bool.
+(* ge_may_block_stopped = true: the dispatcher's wait decision for generate_events WITHOUT its `or not
+   self._running` clause -- only used to show what that clause is for; the code has false *)
+Variable ge_may_block_stopped : bool.
 Variable P : prog.
 Variable ticker : st -> st.          (* tick() one nesting level further down (stop's inline ticks) *)
 
@@ -230,7 +236,7 @@ Definition dispatch (k : evk) (s : st) : st :=
   let s0 := logt (TDisp k) s in
   match k with
   | KGE =>
-      if (0 <? batch s0) || (0 <? qlen s0) || negb (running s0) then s0
+      if (0 <? batch s0) || (0 <? qlen s0) || (negb ge_may_block_stopped && negb (running s0)) then s0
       else match tasks s0 with
            | _ :: _ => timed_wait s0
            | [] => idle_wait (ext s0) s0
@@ -292,50 +298,58 @@ Definition tick (s : st) : st :=
   (* one schedule entry per tick: the order in which the copy of the task set is iterated *)
   let '(e, s0') := match sched s0 with [] => ([], s0) | e :: r => (e, set_sched r s0) end in
   let s1 := proc_gids (order e (map gid_of (tasks s0'))) s0' in
-  let s2 := if running s1 then fire KGE s1 else s1 in
+  let s2 := if running s1
+            then (* `if self._running:` passed; a second thread's whole stop(c) may land here, before the fire *)
+                 let '(m, s1') := match mid s1 with [] => (None, s1) | m :: r => (m, set_mid r s1) end in
+                 let s1'' := match m with
+                             | None => s1'
+                             | Some c => let '(s', raised) := req_stop c s1' in t2_raise c raised s'
+                             end in
+                 fire KGE s1''
+            else s1 in
   if 0 <? qlen s2 then flush s2 else s2.
 
 End Loop.
 
 (* tick with nesting depth d for stop()'s inline ticks *)
-Fixpoint tickd (lg : bool) (P : prog) (d : nat) : st -> st :=
-  match d with O => set_bad | S d' => tick lg P (tickd lg P d') end.
+Fixpoint tickd (lg gb : bool) (P : prog) (d : nat) : st -> st :=
+  match d with O => set_bad | S d' => tick lg gb P (tickd lg gb P d') end.
 
 (* the rest of a pre-empted second-thread stop(c), executed after run() has returned: pre-empted before the fire:
    fire stopped now; (legacy order: record the code now;) no executing thread any more -> three inline ticks in
    the second thread; raise SystemExit *)
-Definition finish_late (lg : bool) (P : prog) (d : nat) (s : st) : st :=
+Definition finish_late (lg gb : bool) (P : prog) (d : nat) (s : st) : st :=
   match pend s with
   | None => s
   | Some (early, c) =>
       let s0 := set_pend None s in
       let s1 := if early then fire KStopped s0 else s0 in
       let s1' := if lg then set_xcode c s1 else s1 in
-      let t := tickd lg P d in
+      let t := tickd lg gb P d in
       let s2 := if executing s1' then s1' else t (t (t s1')) in
       t2_raise c true s2
   end.
 
-Fixpoint main_loop (lg : bool) (P : prog) (d fuel : nat) (s : st) : option st :=
+Fixpoint main_loop (lg gb : bool) (P : prog) (d fuel : nat) (s : st) : option st :=
   match fuel with
   | O => None
-  | S f => if running s || (0 <? qlen s) then main_loop lg P d f (tickd lg P d s) else Some s
+  | S f => if running s || (0 <? qlen s) then main_loop lg gb P d f (tickd lg gb P d s) else Some s
   end.
 
-Fixpoint drain (lg : bool) (P : prog) (d fuel : nat) (s : st) : option st :=
+Fixpoint drain (lg gb : bool) (P : prog) (d fuel : nat) (s : st) : option st :=
   match fuel with
   | O => None
-  | S f => if 0 <? qlen s then drain lg P d f (flush lg P (tickd lg P d) s) else Some s
+  | S f => if 0 <? qlen s then drain lg gb P d f (flush lg gb P (tickd lg gb P d) s) else Some s
   end.
 
 (* Manager.run(); None = out of fuel (or bad) *)
-Definition run (lg : bool) (P : prog) (d fuel : nat) (s : st) : option (st * option Z) :=
+Definition run (lg gb : bool) (P : prog) (d fuel : nat) (s : st) : option (st * option Z) :=
   let s1 := fire KStarted (set_executing true (set_xcode None (set_running true s))) in
-  match main_loop lg P d fuel s1 with
+  match main_loop lg gb P d fuel s1 with
   | None => None
   | Some s2 =>
-      let t := tickd lg P d in
-      match drain lg P d fuel (t (t (t (t s2)))) with
+      let t := tickd lg gb P d in
+      match drain lg gb P d fuel (t (t (t (t s2)))) with
       | None => None
       | Some s4 => if bad s4 then None else
                    let s5 := set_executing false s4 in Some (s5, xcode s5)
@@ -351,25 +365,25 @@ Inductive op :=
 | OFlush                        (* flush() until the queue is empty *)
 | OLen.
 
-Definition exec_op (lg : bool) (P : prog) (d fuel : nat) (o : op) (s : st) : option st :=
+Definition exec_op (lg gb : bool) (P : prog) (d fuel : nat) (o : op) (s : st) : option st :=
   match o with
-  | ORun => match run lg P d fuel s with
+  | ORun => match run lg gb P d fuel s with
             | None => None
             | Some (s', c) =>
-                Some (finish_late lg P d (logt (TOut (match c with Some z => Some (Some z) | None => None end)) s'))
+                Some (finish_late lg gb P d (logt (TOut (match c with Some z => Some (Some z) | None => None end)) s'))
             end
-  | OStop c => let '(s', raised) := req_stop (tickd lg P d) c s in
+  | OStop c => let '(s', raised) := req_stop (tickd lg gb P d) c s in
                Some (logt (TOut (if raised then Some c else None)) s')
   | OSetRunning => Some (set_running true s)
   | OFire n => Some (fire (KUser n) s)
-  | OFlush => drain lg P d fuel s
+  | OFlush => drain lg gb P d fuel s
   | OLen => Some (logt (TLen (qlen s)) s)
   end.
 
-Fixpoint exec_ops (lg : bool) (P : prog) (d fuel : nat) (os : list op) (s : st) : option st :=
+Fixpoint exec_ops (lg gb : bool) (P : prog) (d fuel : nat) (os : list op) (s : st) : option st :=
   match os with
   | [] => Some s
-  | o :: r => match exec_op lg P d fuel o s with None => None | Some s' => exec_ops lg P d fuel r s' end
+  | o :: r => match exec_op lg gb P d fuel o s with None => None | Some s' => exec_ops lg gb P d fuel r s' end
   end.
 
 (* programs as association lists *)
